@@ -195,6 +195,20 @@ class OrbitForm:
         sa, oa = f"{s}.atoms", f"{o}.atoms"
         si, oi = f"{s}._inverted_atoms()", f"{o}._inverted_atoms()"
         sp, op_ = f"{s}._perm_atoms()", f"{o}._perm_atoms()"
+        if isinstance(e, ast.UnaryOp) and isinstance(e.op, ast.Not):
+            k = self.classify(e.operand)
+            return None if k is None else {"bad:negated"}
+        if isinstance(e, ast.BoolOp) and isinstance(e.op, ast.And):
+            ks = [self.classify(v) for v in e.values]
+            if any(k is None for k in ks):
+                return None
+            return {"bad:conjunction"}
+        if isinstance(e, ast.Compare) and len(e.ops) == 1 and isinstance(
+                e.ops[0], (ast.NotEq, ast.NotIn)):
+            pos = ast.Compare(e.left, [ast.Eq() if isinstance(
+                e.ops[0], ast.NotEq) else ast.In()], e.comparators)
+            k = self.classify(pos)
+            return None if k is None else {"bad:negated comparison"}
         if isinstance(e, ast.Compare) and len(e.ops) == 1:
             a, b = _strip_wrappers(e.left), _strip_wrappers(e.comparators[0])
             ta, tb = norm(a), norm(b)
@@ -209,6 +223,12 @@ class OrbitForm:
                     return {"inv"}
                 return None
             return None
+        if isinstance(e, ast.Call) and call_name(e) == "all" and len(
+                e.args) == 1 and isinstance(
+                e.args[0], (ast.GeneratorExp, ast.ListComp)):
+            k = self.classify(ast.Call(ast.Name("any", ast.Load()),
+                                       e.args, []))
+            return None if k is None else {"bad:all() over the orbit"}
         if isinstance(e, ast.Call) and call_name(e) == "any" and len(
                 e.args) == 1 and isinstance(
                 e.args[0], (ast.GeneratorExp, ast.ListComp)):
@@ -221,6 +241,13 @@ class OrbitForm:
             var = gen.target.id
             it = norm(_strip_wrappers(gen.iter))
             elt = g.elt
+            if isinstance(elt, ast.Compare) and len(elt.ops) == 1 and \
+                    isinstance(elt.ops[0], ast.NotEq):
+                pos = ast.GeneratorExp(ast.Compare(
+                    elt.left, [ast.Eq()], elt.comparators), g.generators)
+                k = self.classify(ast.Call(ast.Name("any", ast.Load()),
+                                           [pos], []))
+                return None if k is None else {"bad:!= inside any()"}
             if not (isinstance(elt, ast.Compare) and len(elt.ops) == 1
                     and isinstance(elt.ops[0], ast.Eq)):
                 return None
@@ -323,6 +350,10 @@ def check_eq(prog: Program, res: Result, fi, cls_name: str) -> None:
                     unknown.append(norm(e))
                 else:
                     kinds |= k
+            badk = sorted(k for k in kinds if k.startswith("bad:"))
+            if badk:
+                problems.append("wrong polarity: " + ", ".join(badk))
+                kinds = {k for k in kinds if not k.startswith("bad:")}
             if sp is None or op is None:
                 expect = "True"
                 good = (const_results == {True} and not kinds and not unknown)
